@@ -20,6 +20,8 @@ def _isint(x):
 
 def wrap32(v):
     """int -> value after astype(int32) (two's complement wrap)."""
+    if isinstance(v, tuple):
+        return v      # opaque stored int32 (provenance record): already 32 bits wide
     if is_sym(v):
         return mk(((v.t + 2 ** 31) % (2 ** 32)) - 2 ** 31)
     return ((int(v) + 2 ** 31) % (2 ** 32)) - 2 ** 31
@@ -614,11 +616,36 @@ def _pick(lst, i):
 
 
 # ---------------------------------------------------------------------- numpy module shim
+class _ShimScalarType:
+    """np.int32 / np.intc / np.int64 as a callable that keeps symbolic values symbolic (two's-complement wrap)."""
+    def __init__(self, real, bits):
+        self.real, self.bits = real, bits
+        self.dtype = real_np.dtype(real)
+
+    def __call__(self, v=0):
+        if hasattr(v, 'sym_scalar'):
+            v = v.sym_scalar()
+        if is_sym(v):
+            if self.bits == 32:
+                v = wrap32(v)
+            return NpSymInt(v.t, False) if is_sym(v) else self.real(v)
+        return self.real(v)
+
+    def __eq__(self, o):
+        return o is self or o == self.real
+
+    def __hash__(self):
+        return hash(self.real)
+
+    def __repr__(self):
+        return repr(self.real)
+
+
 class ShimNP:
     """Stands in for `np` inside repo modules. Lazy/symbolic arguments -> lazy results; otherwise real numpy."""
     float32 = real_np.float32
-    int32 = real_np.int32
-    intc = real_np.intc
+    int32 = _ShimScalarType(real_np.int32, 32)
+    intc = _ShimScalarType(real_np.intc, 32)
     ndarray = real_np.ndarray
 
     def __getattr__(self, n):
